@@ -20,6 +20,11 @@ def headers_model(run):
     for cfg in ("code_leak", "pername"):
         neg = core.tlc("mc/MC_Headers.tla", f"mc/MC_Headers_{cfg}.cfg", workers=2, timeout=900, xmx="4g", expect_violation=True)
         run.cov.setdefault("header_design_variants_refuted", {})[cfg] = neg.violated
+    # spec/Scope.tla: the instantiation scope of a parameterized type; dummies are bound last and hide same-named declarations
+    sc = core.tlc("Scope.tla", "mc/MC_Scope.cfg", workers=2, timeout=300)
+    run.add_tlc(sc, "Scope.tla: dummy references are local (DummiesAreLocal, NeighboursDoNotMatter, GlobalsStillVisible) for every set of neighbour declarations")
+    neg = core.tlc("Scope.tla", "mc/MC_Scope_globals_last.cfg", workers=2, timeout=300, expect_violation=True)
+    run.cov.setdefault("negative_models_refuted", {})["scope_globals_bound_last"] = neg.violated
 
 
 def check(tier):
@@ -64,7 +69,9 @@ def check(tier):
                        "defaults, imports and module-qualified references; each is compiled as a whole (hook trace validated against "
                        "Pipeline.tla: every enter_module event must carry the module's own header environment), with the modules in "
                        "reverse order, and every module with only its import closure; per-module bindings compared; non-trivial = "
-                       "at least two modules; distinct by text")
+                       "at least two modules; distinct by text. Fixed families rotate with the case number: value imports, two revisions of one module "
+                       "(Headers.tla), an order-sensitive module next to 40 unrelated definitions, and a module instantiating parameterized types next to a "
+                       "neighbour that declares names spelled like the dummies (Scope.tla)")
     run.cov["samples"] = [{"asn": e["asn"][:500]} for e in ins[:3]]
     run.assumptions = ["import cycles are not generated (references point to earlier definitions except on optional edges)",
                        "module sets the compiler rejects or warns about are traced but not compared"]
